@@ -97,4 +97,12 @@ impl<T> ServerTask<T> where T: RequestHandler {
 //@|    requires old(self).wf(),
 //@|    ensures final(self).filter == old(self).filter,
 //@loop 0|            invariant self.wf(), self.filter == old(self).filter,
+//@armend 0| // [C15] the loop goes on after a command only if it was neither Shutdown nor the closing of the command channel: those two end the task
+//@armend 0| assert(command is Some && !(command->0 is Shutdown));
+//@arm 1| let ghost t0__ = self.tracker@;
+//@armend 1| // [C15] the session that reported its end - and no other - leaves the table
+//@armend 1| assert(self.tracker@ == t0__.remove((shutdown->0).0));
+//@arm 2| let ghost t2__ = self.tracker@;
+//@armend 2| // [C15,C16] a connection from a peer the filter rejects changes nothing: no session is evicted for it
+//@armend 2| assert((result matches Ok(p) && !self.filter.spec_matches(p.1.spec_ip())) ==> self.tracker@ == t2__);
 }
